@@ -1,22 +1,405 @@
-(** C20 — property theorems (first instalment; extended below as the
-    configuration model of DD/ConfigApply.v is proved). *)
+(** C20 — property theorems only (proved in DD/ConfigProofs.v, DD/ConfigCache.v,
+    DD/ConfigIndep.v, DD/ConfigRun.v, DD/Iso.v, DD/RenameProofs.v,
+    DD/ConfigExamples.v; models in DD/ConfigApply.v, DD/Rename.v, DD/Cache.v).
+
+    A configuration of the model is
+      - [alloc]  the node store (index store / pointer store): where a new node
+                 is put; any function returning an unused id ([alloc_ok]);
+      - [gt]     the operand order of commutative operators (index / address
+                 comparison);
+      - [C], [cget], [cadd]  the apply cache: any lossy cache - the direct-
+                 mapped cache [dm_cache] (feature on), [unit] (feature off);
+      - [sched]  the recursor: [SSeq] = sequential; [SPar swap stale l r] = one
+                 [WorkerPool::join] whose second closure ran first ([swap])
+                 and/or whose later closure saw a stale cache ([stale]); the
+                 shape of the tree = multi-threading feature, worker count,
+                 split depth.
+    All four are universally quantified below. *)
 From Coq Require Import List NArith PArith Bool Arith FMapPositive.
-From OxiVerif Require Import DD.Table DD.TableProofs DD.Canon DD.Sem DD.Build DD.BuildProofs
-  DD.Apply DD.ApplyProofs DD.Cache DD.CacheProofs.
+From OxiVerif Require Import DD.Table DD.TableExtra DD.TableProofs DD.Canon DD.Sem DD.Build DD.BuildProofs
+  DD.Apply DD.ApplyProofs DD.Cache DD.CacheProofs DD.ApplyExamples
+  DD.ConfigApply DD.ConfigProofs DD.ConfigCache DD.ConfigIndep DD.ConfigRun DD.Iso
+  DD.Rename DD.RenameProofs DD.ConfigExamples.
 Import ListNotations.
 
-(** apply cache compiled in (direct-mapped, any bucket count / hash / content)
-    versus compiled out (the [unit] cache): re-running the operation of one
-    build in any later table of the other build returns the identical edge *)
-Theorem C20_cache_on_off_same_edge :
-  forall gt1 gt2 hash op s (c1 : dm_cache) f g fuel1 s1 c1' r1,
-  BddOK s -> CacheOK (dmr_get hash) s c1 -> ref_ok s f -> ref_ok s g -> S (nlevels s) <= fuel1 ->
-  apply_bin gt1 dm_cache (dmr_get hash) (dmr_add hash) fuel1 s c1 op f g = Some (s1, c1', r1) ->
-  forall s2 fuel2, BddOK s2 -> extends s1 s2 -> S (nlevels s2) <= fuel2 ->
-  exists c2', apply_bin gt2 unit nc_get nc_add fuel2 s2 tt op f g = Some (s2, c2', r1).
+(** ** (a) apply cache enabled / disabled / any other lossy cache *)
+
+(** same node store and schedule, two arbitrary caches (implementations and
+    contents) and operand orders: the two runs return the IDENTICAL table and
+    the IDENTICAL edge *)
+Theorem C20_apply_bin_cache_exact :
+  forall alloc, alloc_ok alloc ->
+  forall gt1 gt2 C1 C2 cget1 cadd1 cget2 cadd2, lossy cget1 cadd1 -> lossy cget2 cadd2 ->
+  forall op fuel x s (c1 : C1) (c2 : C2) f g,
+  BddOK s -> CacheOK cget1 s c1 -> CacheOK cget2 s c2 -> ref_ok s f -> ref_ok s g ->
+  S (nlevels s) <= fuel ->
+  match apply_bin_g alloc gt1 C1 cget1 cadd1 fuel x s c1 op f g,
+        apply_bin_g alloc gt2 C2 cget2 cadd2 fuel x s c2 op f g with
+  | Some (s1, _, r1), Some (s2, _, r2) => s1 = s2 /\ r1 = r2
+  | _, _ => False
+  end.
+Proof. exact apply_bin_g_cache_exact. Qed.
+Print Assumptions C20_apply_bin_cache_exact.
+
+Theorem C20_apply_not_cache_exact :
+  forall alloc, alloc_ok alloc ->
+  forall C1 C2 cget1 cadd1 cget2 cadd2, lossy cget1 cadd1 -> lossy cget2 cadd2 ->
+  forall fuel x s (c1 : C1) (c2 : C2) f,
+  BddOK s -> CacheOK cget1 s c1 -> CacheOK cget2 s c2 -> ref_ok s f -> S (nlevels s) <= fuel ->
+  match apply_not_g alloc C1 cget1 cadd1 fuel x s c1 f,
+        apply_not_g alloc C2 cget2 cadd2 fuel x s c2 f with
+  | Some (s1, _, r1), Some (s2, _, r2) => s1 = s2 /\ r1 = r2
+  | _, _ => False
+  end.
+Proof. exact apply_not_g_cache_exact. Qed.
+Print Assumptions C20_apply_not_cache_exact.
+
+Theorem C20_apply_ite_cache_exact :
+  forall alloc, alloc_ok alloc ->
+  forall gt1 gt2 C1 C2 cget1 cadd1 cget2 cadd2, lossy cget1 cadd1 -> lossy cget2 cadd2 ->
+  forall fuel x s (c1 : C1) (c2 : C2) f g h,
+  BddOK s -> CacheOK cget1 s c1 -> CacheOK cget2 s c2 -> ref_ok s f -> ref_ok s g -> ref_ok s h ->
+  S (nlevels s) <= fuel ->
+  match apply_ite_g alloc gt1 C1 cget1 cadd1 fuel x s c1 f g h,
+        apply_ite_g alloc gt2 C2 cget2 cadd2 fuel x s c2 f g h with
+  | Some (s1, _, r1), Some (s2, _, r2) => s1 = s2 /\ r1 = r2
+  | _, _ => False
+  end.
+Proof. exact apply_ite_g_cache_exact. Qed.
+Print Assumptions C20_apply_ite_cache_exact.
+
+(** the instance named in the property: direct-mapped cache (any hash, bucket
+    count, entry capacity, correct content) against the cache-less build *)
+Theorem C20_apply_bin_cache_on_off :
+  forall alloc, alloc_ok alloc ->
+  forall gt1 gt2 hash op fuel x s (c1 : dm_cache) f g,
+  BddOK s -> CacheOK (dmr_get hash) s c1 -> ref_ok s f -> ref_ok s g -> S (nlevels s) <= fuel ->
+  match apply_bin_g alloc gt1 dm_cache (dmr_get hash) (dmr_add hash) fuel x s c1 op f g,
+        apply_bin_g alloc gt2 unit nc_get nc_add fuel x s tt op f g with
+  | Some (s1, _, r1), Some (s2, _, r2) => s1 = s2 /\ r1 = r2
+  | _, _ => False
+  end.
 Proof.
-  intros gt1 gt2 hash op s c1 f g fuel1 s1 c1' r1 B O Hf Hg F1 E s2 fuel2 B2 X F2.
-  exact (apply_bin_history_independent gt1 gt2 dm_cache unit (dmr_get hash) (dmr_add hash) nc_get nc_add
-           (dmr_lossy hash) nc_lossy op s c1 f g fuel1 s1 c1' r1 B O Hf Hg F1 E s2 tt fuel2 B2 X (nc_ok s2 tt) F2).
+  exact (fun alloc Ha gt1 gt2 hash op fuel x s c1 f g B O1 =>
+    apply_bin_g_cache_exact alloc Ha gt1 gt2 dm_cache unit (dmr_get hash) (dmr_add hash) nc_get nc_add
+      (dmr_lossy hash) nc_lossy op fuel x s c1 tt f g B O1 (nc_ok s tt)).
 Qed.
-Print Assumptions C20_cache_on_off_same_edge.
+Print Assumptions C20_apply_bin_cache_on_off.
+
+(** whole histories: same store and schedules, any two caches / operand
+    orders: the two managers hold the identical table (nodes, ids, handles)
+    after every history, or both runs fail *)
+Theorem C20_run_ops_cache_exact :
+  forall alloc, alloc_ok alloc ->
+  forall (sch : nat -> sched) gt1 gt2 C1 C2 cget1 cadd1 cget2 cadd2,
+  lossy cget1 cadd1 -> lossy cget2 cadd2 ->
+  forall ops (st1 : mstate C1) (st2 : mstate C2),
+  m_snap C1 st1 = m_snap C2 st2 -> m_step C1 st1 = m_step C2 st2 -> BddOK (m_snap C1 st1) ->
+  CacheOK cget1 (m_snap C1 st1) (m_cache C1 st1) -> CacheOK cget2 (m_snap C2 st2) (m_cache C2 st2) ->
+  match run_ops alloc gt1 C1 cget1 cadd1 sch st1 ops, run_ops alloc gt2 C2 cget2 cadd2 sch st2 ops with
+  | Some a, Some b =>
+    m_snap C1 a = m_snap C2 b /\ m_step C1 a = m_step C2 b /\ BddOK (m_snap C1 a) /\
+    CacheOK cget1 (m_snap C1 a) (m_cache C1 a) /\ CacheOK cget2 (m_snap C2 b) (m_cache C2 b)
+  | None, None => True
+  | _, _ => False
+  end.
+Proof.
+  exact (fun alloc Ha sch gt1 gt2 C1 C2 cget1 cadd1 cget2 cadd2 L1 L2 ops st1 st2 E1 E2 B O1 O2 =>
+    run_ops_cache_exact alloc Ha sch gt1 gt2 C1 C2 cget1 cadd1 cget2 cadd2 L1 L2 ops st1 st2
+      (conj E1 (conj E2 (conj B (conj O1 O2))))).
+Qed.
+Print Assumptions C20_run_ops_cache_exact.
+
+(** ** (b) node store: observables do not depend on the ids *)
+
+(** every injective renaming of the node ids of any snapshot (any kind,
+    well-formed or not) preserves the value of every edge ... *)
+Theorem C20_sem_edge_rename : forall rho, injective rho ->
+  forall s e c, sem_edge (rename_snap rho s) (rename_edge rho e) c = sem_edge s e c.
+Proof. exact sem_edge_rename. Qed.
+Print Assumptions C20_sem_edge_rename.
+
+(** ... the node count of every edge ... *)
+Theorem C20_count_reach_rename : forall rho, injective rho ->
+  forall s e, count_reach (rename_snap rho s) (rename_edge rho e) = count_reach s e.
+Proof. exact count_reach_rename. Qed.
+Print Assumptions C20_count_reach_rename.
+
+(** ... the structural invariant (C03) ... *)
+Theorem C20_wf_rename : forall rho, injective rho -> forall s, WF (rename_snap rho s) <-> WF s.
+Proof. exact wf_rename. Qed.
+Print Assumptions C20_wf_rename.
+
+Theorem C20_wf_b_rename : forall rho, injective rho ->
+  forall s, wf_b (rename_snap rho s) = wf_b s /\ wf_full_b (rename_snap rho s) = wf_full_b s.
+Proof. exact (fun rho H s => conj (wf_b_rename rho H s) (wf_full_b_rename rho H s)). Qed.
+Print Assumptions C20_wf_b_rename.
+
+(** ... and the reference-count invariant (C05) *)
+Theorem C20_rc_exact_b_rename : forall rho, injective rho ->
+  forall s extra, rc_exact_b (rename_snap rho s) (map (rename_edge rho) extra) = rc_exact_b s extra.
+Proof. exact rc_exact_b_rename. Qed.
+Print Assumptions C20_rc_exact_b_rename.
+
+(** hence the whole observation of a manager: per handle slot the value under
+    the choice and the node count, and the variable order *)
+Theorem C20_observe_rename : forall rho, injective rho ->
+  forall s c, observe (rename_snap rho s) c = observe s c.
+Proof. exact observe_rename. Qed.
+Print Assumptions C20_observe_rename.
+
+(** slab addresses are such a renaming of slot indices *)
+Theorem C20_addr_of_injective : forall base k, injective (addr_of base k).
+Proof. exact addr_of_injective. Qed.
+Print Assumptions C20_addr_of_injective.
+
+(** two managers that need not be renamings of each other (other garbage, other
+    history, other everything): in two well-formed BDD tables over the same
+    number of levels, two edges with the same value under every choice have
+    the same node count *)
+Theorem C20_count_reach_sem : forall s1 s2, BddOK s1 -> BddOK s2 -> nlevels s1 = nlevels s2 ->
+  forall r1 r2, ref_ok s1 r1 -> ref_ok s2 r2 ->
+  (forall c0, bchoice c0 -> semk s1 (S (nlevels s1)) r1 c0 = semk s2 (S (nlevels s2)) r2 c0) ->
+  count_reach s1 (E r1) = count_reach s2 (E r2).
+Proof. exact count_reach_sem. Qed.
+Print Assumptions C20_count_reach_sem.
+
+(** ** (a)+(b)+(c) one operation under two arbitrary configurations *)
+
+(** both runs succeed; both result tables are well-formed extensions; the two
+    edges have the value [op x y] under every choice and the same node count;
+    if an edge with that meaning already exists, both runs return exactly it
+    and create nothing *)
+Theorem C20_apply_bin_config_indep :
+  forall alloc1, alloc_ok alloc1 -> forall gt1 C1 cget1 cadd1, lossy cget1 cadd1 ->
+  forall alloc2, alloc_ok alloc2 -> forall gt2 C2 cget2 cadd2, lossy cget2 cadd2 ->
+  forall op s (c1 : C1) (c2 : C2) f g x1 x2 fuel1 fuel2,
+  BddOK s -> CacheOK cget1 s c1 -> CacheOK cget2 s c2 -> ref_ok s f -> ref_ok s g ->
+  S (nlevels s) <= fuel1 -> S (nlevels s) <= fuel2 ->
+  exists s1 c1' r1 s2 c2' r2,
+    apply_bin_g alloc1 gt1 C1 cget1 cadd1 fuel1 x1 s c1 op f g = Some (s1, c1', r1) /\
+    apply_bin_g alloc2 gt2 C2 cget2 cadd2 fuel2 x2 s c2 op f g = Some (s2, c2', r2) /\
+    BddOK s1 /\ BddOK s2 /\ extends s s1 /\ extends s s2 /\
+    CacheOK cget1 s1 c1' /\ CacheOK cget2 s2 c2' /\
+    ref_ok s1 r1 /\ ref_ok s2 r2 /\
+    (forall c0, bchoice c0 -> exists v,
+       (exists x y, semk s (S (nlevels s)) f c0 = Some (b2c x) /\
+                    semk s (S (nlevels s)) g c0 = Some (b2c y) /\ v = eval_bop op x y) /\
+       semk s1 (S (nlevels s1)) r1 c0 = Some (b2c v) /\
+       semk s2 (S (nlevels s2)) r2 c0 = Some (b2c v)) /\
+    count_reach s1 (E r1) = count_reach s2 (E r2) /\
+    (forall r0, ref_ok s r0 ->
+       (forall c0, bchoice c0 -> semk s (S (nlevels s)) r0 c0 = semk s1 (S (nlevels s1)) r1 c0) ->
+       s1 = s /\ s2 = s /\ r1 = r0 /\ r2 = r0).
+Proof. exact apply_bin_g_config_indep. Qed.
+Print Assumptions C20_apply_bin_config_indep.
+
+Theorem C20_apply_not_config_indep :
+  forall alloc1, alloc_ok alloc1 -> forall C1 cget1 cadd1, lossy cget1 cadd1 ->
+  forall alloc2, alloc_ok alloc2 -> forall C2 cget2 cadd2, lossy cget2 cadd2 ->
+  forall s (c1 : C1) (c2 : C2) f x1 x2 fuel1 fuel2,
+  BddOK s -> CacheOK cget1 s c1 -> CacheOK cget2 s c2 -> ref_ok s f ->
+  S (nlevels s) <= fuel1 -> S (nlevels s) <= fuel2 ->
+  exists s1 c1' r1 s2 c2' r2,
+    apply_not_g alloc1 C1 cget1 cadd1 fuel1 x1 s c1 f = Some (s1, c1', r1) /\
+    apply_not_g alloc2 C2 cget2 cadd2 fuel2 x2 s c2 f = Some (s2, c2', r2) /\
+    BddOK s1 /\ BddOK s2 /\ extends s s1 /\ extends s s2 /\
+    CacheOK cget1 s1 c1' /\ CacheOK cget2 s2 c2' /\
+    ref_ok s1 r1 /\ ref_ok s2 r2 /\
+    (forall c0, bchoice c0 -> exists v,
+       (exists x, semk s (S (nlevels s)) f c0 = Some (b2c x) /\ v = negb x) /\
+       semk s1 (S (nlevels s1)) r1 c0 = Some (b2c v) /\
+       semk s2 (S (nlevels s2)) r2 c0 = Some (b2c v)) /\
+    count_reach s1 (E r1) = count_reach s2 (E r2) /\
+    (forall r0, ref_ok s r0 ->
+       (forall c0, bchoice c0 -> semk s (S (nlevels s)) r0 c0 = semk s1 (S (nlevels s1)) r1 c0) ->
+       s1 = s /\ s2 = s /\ r1 = r0 /\ r2 = r0).
+Proof. exact apply_not_g_config_indep. Qed.
+Print Assumptions C20_apply_not_config_indep.
+
+Theorem C20_apply_ite_config_indep :
+  forall alloc1, alloc_ok alloc1 -> forall gt1 C1 cget1 cadd1, lossy cget1 cadd1 ->
+  forall alloc2, alloc_ok alloc2 -> forall gt2 C2 cget2 cadd2, lossy cget2 cadd2 ->
+  forall s (c1 : C1) (c2 : C2) f g h x1 x2 fuel1 fuel2,
+  BddOK s -> CacheOK cget1 s c1 -> CacheOK cget2 s c2 -> ref_ok s f -> ref_ok s g -> ref_ok s h ->
+  S (nlevels s) <= fuel1 -> S (nlevels s) <= fuel2 ->
+  exists s1 c1' r1 s2 c2' r2,
+    apply_ite_g alloc1 gt1 C1 cget1 cadd1 fuel1 x1 s c1 f g h = Some (s1, c1', r1) /\
+    apply_ite_g alloc2 gt2 C2 cget2 cadd2 fuel2 x2 s c2 f g h = Some (s2, c2', r2) /\
+    BddOK s1 /\ BddOK s2 /\ extends s s1 /\ extends s s2 /\
+    CacheOK cget1 s1 c1' /\ CacheOK cget2 s2 c2' /\
+    ref_ok s1 r1 /\ ref_ok s2 r2 /\
+    (forall c0, bchoice c0 -> exists v,
+       (exists x y z, semk s (S (nlevels s)) f c0 = Some (b2c x) /\
+                      semk s (S (nlevels s)) g c0 = Some (b2c y) /\
+                      semk s (S (nlevels s)) h c0 = Some (b2c z) /\ v = if x then y else z) /\
+       semk s1 (S (nlevels s1)) r1 c0 = Some (b2c v) /\
+       semk s2 (S (nlevels s2)) r2 c0 = Some (b2c v)) /\
+    count_reach s1 (E r1) = count_reach s2 (E r2) /\
+    (forall r0, ref_ok s r0 ->
+       (forall c0, bchoice c0 -> semk s (S (nlevels s)) r0 c0 = semk s1 (S (nlevels s1)) r1 c0) ->
+       s1 = s /\ s2 = s /\ r1 = r0 /\ r2 = r0).
+Proof. exact apply_ite_g_config_indep. Qed.
+Print Assumptions C20_apply_ite_config_indep.
+
+(** ** (c) the two evaluation orders of one join *)
+
+(** then-closure first with a shared cache, versus else-closure first and a
+    stale cache view for the other closure (sub-schedules arbitrary): same
+    value under every choice, same node count, identical edge if it exists *)
+Theorem C20_apply_bin_either_order : forall alloc, alloc_ok alloc ->
+  forall gt C cget cadd, lossy cget cadd ->
+  forall op s (c : C) f g l r l' r' stale,
+  BddOK s -> CacheOK cget s c -> ref_ok s f -> ref_ok s g ->
+  exists s1 c1' r1 s2 c2' r2,
+    apply_bin_g alloc gt C cget cadd (S (nlevels s)) (SPar false false l r) s c op f g = Some (s1, c1', r1) /\
+    apply_bin_g alloc gt C cget cadd (S (nlevels s)) (SPar true stale l' r') s c op f g = Some (s2, c2', r2) /\
+    BddOK s1 /\ BddOK s2 /\ extends s s1 /\ extends s s2 /\
+    CacheOK cget s1 c1' /\ CacheOK cget s2 c2' /\
+    ref_ok s1 r1 /\ ref_ok s2 r2 /\
+    (forall c0, bchoice c0 -> exists v,
+       (exists x y, semk s (S (nlevels s)) f c0 = Some (b2c x) /\
+                    semk s (S (nlevels s)) g c0 = Some (b2c y) /\ v = eval_bop op x y) /\
+       semk s1 (S (nlevels s1)) r1 c0 = Some (b2c v) /\
+       semk s2 (S (nlevels s2)) r2 c0 = Some (b2c v)) /\
+    count_reach s1 (E r1) = count_reach s2 (E r2) /\
+    (forall r0, ref_ok s r0 ->
+       (forall c0, bchoice c0 -> semk s (S (nlevels s)) r0 c0 = semk s1 (S (nlevels s1)) r1 c0) ->
+       s1 = s /\ s2 = s /\ r1 = r0 /\ r2 = r0).
+Proof. exact apply_bin_g_either_order. Qed.
+Print Assumptions C20_apply_bin_either_order.
+
+(** history independence across configurations: the edge one configuration
+    returned is what every other configuration returns for the same operands in
+    every later table, without creating a node *)
+Theorem C20_apply_bin_rerun :
+  forall alloc1, alloc_ok alloc1 -> forall gt1 C1 cget1 cadd1, lossy cget1 cadd1 ->
+  forall alloc2, alloc_ok alloc2 -> forall gt2 C2 cget2 cadd2, lossy cget2 cadd2 ->
+  forall op s (c1 : C1) f g x1 fuel1 s1 c1' r1,
+  BddOK s -> CacheOK cget1 s c1 -> ref_ok s f -> ref_ok s g -> S (nlevels s) <= fuel1 ->
+  apply_bin_g alloc1 gt1 C1 cget1 cadd1 fuel1 x1 s c1 op f g = Some (s1, c1', r1) ->
+  forall s2 (c2 : C2) x2 fuel2,
+  BddOK s2 -> extends s1 s2 -> CacheOK cget2 s2 c2 -> S (nlevels s2) <= fuel2 ->
+  exists c2', apply_bin_g alloc2 gt2 C2 cget2 cadd2 fuel2 x2 s2 c2 op f g = Some (s2, c2', r1).
+Proof. exact apply_bin_g_rerun. Qed.
+Print Assumptions C20_apply_bin_rerun.
+
+(** ** Whole histories under two arbitrary configurations *)
+
+(** two managers whose tables are well-formed BDD tables with the same
+    variable order, the same handle slots and, slot by slot, edges of the same
+    meaning (e.g. two fresh managers), running the same list of API calls under
+    two arbitrary configurations: both runs fail together, or both final
+    tables satisfy the structural invariant and every observation (slot,
+    value under every choice, node count; variable order) agrees *)
+Theorem C20_run_ops_observe :
+  forall alloc1, alloc_ok alloc1 -> forall gt1 C1 cget1 cadd1, lossy cget1 cadd1 ->
+  forall (sch1 : nat -> sched),
+  forall alloc2, alloc_ok alloc2 -> forall gt2 C2 cget2 cadd2, lossy cget2 cadd2 ->
+  forall (sch2 : nat -> sched) ops (st1 : mstate C1) (st2 : mstate C2),
+  sim (m_snap C1 st1) (m_snap C2 st2) ->
+  CacheOK cget1 (m_snap C1 st1) (m_cache C1 st1) -> CacheOK cget2 (m_snap C2 st2) (m_cache C2 st2) ->
+  match run_ops alloc1 gt1 C1 cget1 cadd1 sch1 st1 ops, run_ops alloc2 gt2 C2 cget2 cadd2 sch2 st2 ops with
+  | Some a, Some b =>
+    wf_b (m_snap C1 a) = true /\ wf_b (m_snap C2 b) = true /\
+    forall c, bchoice c -> observe (m_snap C1 a) c = observe (m_snap C2 b) c
+  | None, None => True
+  | _, _ => False
+  end.
+Proof.
+  exact (fun alloc1 Ha1 gt1 C1 cget1 cadd1 L1 sch1 alloc2 Ha2 gt2 C2 cget2 cadd2 L2 sch2 ops st1 st2 S O1 O2 =>
+    run_ops_observe alloc1 Ha1 gt1 C1 cget1 cadd1 L1 sch1 alloc2 Ha2 gt2 C2 cget2 cadd2 L2 sch2 ops st1 st2
+      (conj S (conj O1 O2))).
+Qed.
+Print Assumptions C20_run_ops_observe.
+
+(** what [sim] says, and that it holds of a table with itself *)
+Theorem C20_sim_spec : forall s1 s2, sim s1 s2 <->
+  BddOK s1 /\ BddOK s2 /\ s_v2l s1 = s_v2l s2 /\ s_l2v s1 = s_l2v s2 /\
+  Forall2 (fun h1 h2 : N * edge =>
+             fst h1 = fst h2 /\ etag (snd h1) = false /\ etag (snd h2) = false /\
+             exists phi, Den s1 (eref (snd h1)) phi /\ Den s2 (eref (snd h2)) phi)
+          (s_handles s1) (s_handles s2).
+Proof.
+  exact (fun s1 s2 => conj
+    (fun H => conj (sim_b1 _ _ H) (conj (sim_b2 _ _ H) (conj (sim_v2l _ _ H) (conj (sim_l2v _ _ H) (sim_h _ _ H)))))
+    (fun H => match H with conj a (conj b (conj c (conj d e))) => mkSim s1 s2 a b c d e end)).
+Qed.
+Print Assumptions C20_sim_spec.
+
+Theorem C20_sim_refl : forall s, BddOK s -> sim s s.
+Proof. exact sim_refl. Qed.
+Print Assumptions C20_sim_refl.
+
+(** ** The configuration of C02 / C06 is an instance *)
+
+Theorem C20_seq_instance : forall gt C cget cadd fuel s (c : C),
+  (forall f, apply_not_g fresh_id C cget cadd fuel SSeq s c f = apply_not C cget cadd fuel s c f) /\
+  (forall op f g, apply_bin_g fresh_id gt C cget cadd fuel SSeq s c op f g
+                  = apply_bin gt C cget cadd fuel s c op f g) /\
+  (forall f g h, apply_ite_g fresh_id gt C cget cadd fuel SSeq s c f g h
+                 = apply_ite gt C cget cadd fuel s c f g h) /\
+  alloc_ok fresh_id.
+Proof.
+  exact (fun gt C cget cadd fuel s c =>
+    conj (apply_not_g_seq C cget cadd fuel s c)
+      (conj (fun op f g => apply_bin_g_seq gt C cget cadd fuel s c op f g)
+        (conj (fun f g h => apply_ite_g_seq gt C cget cadd fuel s c f g h) fresh_id_alloc_ok))).
+Qed.
+Print Assumptions C20_seq_instance.
+
+(** ** The hypotheses are satisfiable and the configurations differ *)
+
+(** three model configurations (index-like store, no cache, sequential /
+    id-skipping store, 4-bucket direct-mapped cache, every join to depth 3
+    swapped with stale caches / address-like store, unbounded cache, mixed
+    orders) on a 14-call history: all runs succeed, the tables differ, the
+    observations under all 8 choices agree; the start states satisfy the
+    hypotheses of [C20_run_ops_observe] *)
+Theorem C20_example :
+  alloc_ok (alloc_skip 5) /\ alloc_ok alloc_addr /\ BddOK ex_empty /\
+  sim ex_empty ex_empty /\ CacheOK (dmr_get hash_op) ex_empty (dm_init 4 8) /\
+  observe_all runA <> None /\
+  observe_all runA = observe_all runB /\ observe_all runA = observe_all runC /\
+  ids_of runA <> ids_of runB /\ ids_of runA <> ids_of runC /\
+  length (ids_of runA) = length (ids_of runB) /\
+  (match runA, runB with Some a, Some b => m_snap unit a <> m_snap dm_cache b | _, _ => False end).
+Proof.
+  exact (conj (alloc_skip_ok 5) (conj alloc_addr_ok (conj ex_empty_ok
+          (conj (sim_refl ex_empty ex_empty_ok) (conj (dm_cacheok_init hash_op ex_empty 4 8) ex_runs))))).
+Qed.
+Print Assumptions C20_example.
+
+(** the swapped join order alone already changes the table (same store): the
+    equivalence of (c) is up to node ids, not an identity *)
+Theorem C20_example_order :
+  let x := run_ops fresh_id gt_id unit nc_get nc_add sch_seq (mkM unit ex_empty tt 0) ex_ops in
+  let y := run_ops fresh_id gt_id unit nc_get nc_add sch_swapped (mkM unit ex_empty tt 0) ex_ops in
+  observe_all x = observe_all y /\
+  (match x, y with Some a, Some b => m_snap unit a <> m_snap unit b | _, _ => False end).
+Proof. exact ex_swap_ids. Qed.
+Print Assumptions C20_example_order.
+
+(** cache on/off with the same store and schedule: identical tables *)
+Theorem C20_example_cache :
+  let x := run_ops fresh_id gt_id unit nc_get nc_add sch_swapped (mkM unit ex_empty tt 0) ex_ops in
+  let y := run_ops fresh_id gt_rev dm_cache (dmr_get hash_op) (dmr_add hash_op) sch_swapped
+                   (mkM dm_cache ex_empty (dm_init 2 8) 0) ex_ops in
+  match x, y with Some a, Some b => m_snap unit a = m_snap dm_cache b | _, _ => False end.
+Proof. exact ex_cache_exact. Qed.
+Print Assumptions C20_example_cache.
+
+(** renaming the final table of run A to slab addresses: other ids, same
+    observation, same invariants *)
+Theorem C20_example_rename :
+  match runA with
+  | Some a =>
+    let s := m_snap unit a in
+    let s' := rename_snap (addr_of 4096 4) s in
+    map fst (PositiveMap.elements (s_nodes s')) <> map fst (PositiveMap.elements (s_nodes s)) /\
+    map (observe s') all_choices = map (observe s) all_choices /\
+    wf_b s' = true /\ rc_exact_b s' [] = rc_exact_b s []
+  | None => False
+  end.
+Proof. exact ex_rename. Qed.
+Print Assumptions C20_example_rename.
